@@ -161,11 +161,6 @@ for _vec in (True, False):
         vec = _vec
         self_schema = f"{CLA}#{kind(_vec)}"
 
-        def finding_regions(self, c):
-            a = self.parts(c)[3]
-            i = z3.Int("i!fr")
-            return {"some-input-is-approximated": z3.Exists([i], z3.And(0 <= i, i < ln(a), el(a, i)))}
-
         def ensures(self, c):
             s, x, x0, a, thr, D, R, w = self.parts(c)
             m, n = self.out_dim(c), ln(x0)
@@ -435,3 +430,269 @@ class TaylorLemmas(Contract):
         return [("taylor-form-base", z3.Implies(z3.And(*ax), P(z3.IntVal(0)))),
                 ("taylor-form-step", z3.Implies(z3.And(*ax, *defs, k >= 0, P(k)), P(k + 1))),
                 ("taylor-form", z3.Implies(z3.And(n >= 0, P(n)), PSUM(U, n) + (f0 - PSUM(V, n)) == f0 + PSUM(W, n)))]
+
+
+schema(f"{MDOF}#taylor-s", {"_func": fun("f", False)[0], "_jac": fun("f", False)[1], "name": TStr, "_input_names": TList(TStr)})
+
+
+@register
+class LinearApproximationNumberValued(_NewLinear):
+    """First-order Taylor polynomial of a number-valued f at x0: one row of coefficients, the gradient Df(x0), and the offset
+    f(x0) - sum_k Df(x0)_k x0_k."""
+
+    targets = (TAYLOR + "compute_linear_approximation",)
+    variant = "number-valued-f"
+    params = {"function": TObj(MDOF, schema_key=f"{MDOF}#taylor-s"), "x_vect": F1, "name": TStr, "f_type": TStr, "input_names": TList(TStr)}
+    modifies = ()
+
+    def requires(self, c):
+        n = ln(c.old.x_vect)
+        p = z3.Const("p!ta", F1.sort())
+        f, df = z3fun("f", False)
+        return [("f-conventions", z3.ForAll([p], z3.Implies(F1.dim(p) == n, F1.dim(df(p)) == n), patterns=[df(p)]))]
+
+    def ensures(self, c):
+        x0 = c.old.x_vect
+        out = self.is_new_linear_function(c)
+        r = c.result
+        A, b = r._coefficients, r._value_at_zero
+        j = z3.Int("j!ls")
+        pts = []
+        for fname in ("c10_f", "c10_Df"):
+            cs = calls(c, fname)
+            if len(cs) != 1:
+                return out + [(f"{fname[4:]}-is-evaluated-exactly-once", z3.BoolVal(False))]
+            (arg,), res = cs[0]
+            pts.append(res)
+            out.append((f"{fname[4:]}-is-evaluated-at-the-reference-point",
+                        z3.And(F1.dim(arg) == ln(x0), z3.ForAll([j], z3.Implies(z3.And(0 <= j, j < ln(x0)), F1.els(arg)[j] == el(x0, j))))))
+        fx, dfx = pts
+        n = ln(x0)
+        out += [("coefficients-shape-(1,n)", z3.And(ln(A, 0) == 1, ln(A, 1) == n)),
+                ("coefficients-are-the-gradient-at-the-reference-point", z3.ForAll([j], z3.Implies(z3.And(0 <= j, j < n), el(A, 0, j) == F1.els(dfx)[j]))),
+                ("offset-size", ln(b) == 1)]
+        out += sum_clauses(c, "offset", el(b, 0), lambda: fx - series(lambda k: F1.els(dfx)[k] * el(x0, k), n))
+        return out + _unchanged(c)
+
+
+@register
+class LinearRestrict(_NewLinear):
+    """Restriction of A x + b to the inputs that are not frozen: with the frozen inputs F_0.. (distinct, in range) at the values v and the
+    active inputs a_0 < a_1 < ... (all the others), the new function is y -> sum_k A[:, a_k] y_k + (b + sum_k A[:, F_k] v_k)."""
+
+    targets = (LIN + ".restrict",)
+    self_schema = LIN + "#dense"
+    function_type_enum = True  # the default f_type of the constructor: MDOFunction.FunctionType.NONE == ""
+    comprehension_list_index = True  # input_names[i] inside a comprehension: the index is proved in range for every position
+    params = {"frozen_indexes": I1, "frozen_values": F1}
+    modifies = ()
+    raises = {"ValueError": lambda c: ln(c.old.frozen_indexes) != ln(c.old.frozen_values)}
+
+    def requires(self, c):
+        s, fr = c.old.self, c.old.frozen_indexes
+        n = ln(s._coefficients, 1)
+        a, b = z3.Int("a!lr"), z3.Int("b!lr")
+        return [("offset-length", ln(s._value_at_zero) == ln(s._coefficients, 0)),
+                ("one-name-per-input", s._input_names.n == n),
+                ("frozen-indexes-in-range", z3.ForAll([a], z3.Implies(z3.And(0 <= a, a < ln(fr)), z3.And(0 <= el(fr, a), el(fr, a) < n)))),
+                ("frozen-indexes-distinct", z3.ForAll([a, b], z3.Implies(z3.And(0 <= a, a < b, b < ln(fr)), el(fr, a) != el(fr, b))))]
+
+    def enumerated(self, c, act, q, j):
+        """j = act[k] for some k < q; the position map of the filtered comprehension that built the enumeration, if any, is the witness."""
+        from pyvc.values import ListObj
+
+        k = z3.Int("k!en")
+        maps = [o.fdst for o in c.st.heap.values() if isinstance(o, ListObj) and getattr(o, "fdst", None) is not None]
+        if len(maps) == 1:
+            return z3.And(0 <= maps[0][j], maps[0][j] < q, el(act, maps[0][j]) == j)
+        return z3.Exists([k], z3.And(0 <= k, k < q, el(act, k) == j))
+
+    def ensures(self, c):
+        from pyvc.state import Undecided
+
+        s, fr, v = c.old.self, c.old.frozen_indexes, c.old.frozen_values
+        A0, b0 = s._coefficients, s._value_at_zero
+        m, n = ln(A0, 0), ln(A0, 1)
+        out = self.is_new_linear_function(c)
+        r = c.result
+        A, b = r._coefficients, r._value_at_zero
+        if "active_indexes" not in c.locals:
+            raise Undecided("the local 'active_indexes' (enumeration of the inputs that are not frozen) no longer exists")
+        act = c.locals["active_indexes"]
+        q = ln(act)
+        i, k, k2, j, t = z3.Int("i!lr"), z3.Int("k!lr"), z3.Int("k2!lr"), z3.Int("j!lr"), z3.Int("t!lr")
+        frozen = lambda x: z3.Exists([t], z3.And(0 <= t, t < ln(fr), el(fr, t) == x))  # noqa: E731
+        out += [
+            ("active:in-range-and-not-frozen", z3.ForAll([k], z3.Implies(z3.And(0 <= k, k < q), z3.And(0 <= el(act, k), el(act, k) < n, z3.Not(frozen(el(act, k))))))),
+            ("active:increasing", z3.ForAll([k, k2], z3.Implies(z3.And(0 <= k, k < k2, k2 < q), el(act, k) < el(act, k2)))),
+            ("active:every-input-that-is-not-frozen", z3.ForAll([j], z3.Implies(z3.And(0 <= j, j < n, z3.Not(frozen(j))), self.enumerated(c, act, q, j)))),
+            ("coefficients-shape", z3.And(ln(A, 0) == m, ln(A, 1) == q)),
+            ("coefficients-are-the-active-columns", z3.ForAll([i, k], z3.Implies(z3.And(0 <= i, i < m, 0 <= k, k < q), el(A, i, k) == el(A0, i, el(act, k))))),
+            ("offset-size", ln(b) == m),
+        ]
+        out += sum_clauses(c, "offset", el(b, i), lambda: series(lambda k: el(A0, i, el(fr, k)) * el(v, k), ln(fr)) + el(b0, i), [i], z3.And(0 <= i, i < m))
+        return out
+
+
+# ============================================================================ negation of a function: wiring of the new MDOFunction
+from pyvc.contract import Contract as _C  # noqa: E402,F401
+
+
+@register
+class PrettyStr(Contract):
+    targets = ("gemseo.utils.string_tools.pretty_str",)
+    prop = ("C10",)
+    params = {"obj": TList(TStr)}
+    returns = TStr
+    trusted = True
+    description = "assumed: pretty_str builds a display string from a list of names (strings only, no effect on the state)"
+
+
+for _vec in (True, False):
+    _fn, _jac = fun("f", _vec)
+    _common = {"name": TStr, "f_type": TStr, "expr": TStr, "_input_names": TList(TStr), "_output_names": TList(TStr), "dim": TInt, "last_eval": TVal,
+               "force_real": TBool, "special_repr": TStr, "has_default_name": TBool, "_MDOFunction__original_name": TStr,
+               "_MDOFunction__expects_normalized_inputs": TBool}
+    schema(f"{MDOF}#neg-operand-{kind(_vec)}", dict(_common, _func=_fn, _jac=_jac, original=SelfRef(MDOF)))
+    # the function built by __neg__: its callables are bound methods of the operand
+    schema(f"{MDOF}#neg-result-{kind(_vec)}", dict(_common, _func=TVal, _jac=TVal, original=SelfRef(MDOF)))
+
+
+def bound_to(v, owner_ref, method):
+    from pyvc.values import BoundMethod, Ref
+
+    return isinstance(v, BoundMethod) and isinstance(v.recv, Ref) and v.recv.id == owner_ref.id and v.finfo is not None and v.finfo.qualname == f"{MDOF}.{method}"
+
+
+for _vec in (True, False):
+    class FunctionNeg(Contract):
+        """-f is a new MDOFunction whose value is the operand's _min_pt (x -> -f(x), contract above in c10_function_algebra) and whose Jacobian is the
+        operand's _min_jac (x -> -Df(x)), with the operand's type, declared output dimension and output names; the operand is unchanged."""
+
+        targets = (MDOF + ".__neg__",)
+        variant = f"{'vector' if _vec else 'number'}-valued-f"
+        prop = ("C10",)
+        numpy = "precise"
+        c01 = True
+        c01_construct = {MDOF: f"{MDOF}#neg-result-{kind(_vec)}"}
+        frame_arrays = True
+        self_schema = f"{MDOF}#neg-operand-{kind(_vec)}"
+        returns = TObj(MDOF, schema_key=f"{MDOF}#neg-result-{kind(_vec)}")
+        modifies = ()
+
+        def ensures(self, c):
+            from pyvc.values import Ref
+
+            s, rref = c.old.self, c.result_value
+            ok = isinstance(rref, Ref) and rref.id != c.arg("self").id
+            if not ok:
+                return [("result-is-a-new-function", z3.BoolVal(False))]
+            r = c.result
+            f = r.obj.fields
+            return [("result-is-a-new-function", z3.BoolVal(True)),
+                    ("value-is-the-opposite-of-the-operand", z3.BoolVal(bound_to(f.get("_func"), c.arg("self"), "_min_pt"))),
+                    ("jacobian-is-the-opposite-of-the-operand-jacobian", z3.BoolVal(bound_to(f.get("_jac"), c.arg("self"), "_min_jac"))),
+                    ("same-type-and-declared-dimension", z3.And(r.f_type == s.f_type, r.dim == s.dim)),
+                    ("same-output-names", z3.And(r._output_names.n == s._output_names.n, r._output_names.elems == s._output_names.elems)),
+                    ("is-its-own-original", z3.BoolVal(f.get("original") == rref))]
+
+    register(FunctionNeg)
+
+
+# ============================================================================ restriction of a function to some inputs
+FR = "gemseo.core.mdo_functions.function_restriction.FunctionRestriction"
+Q_ = "_FunctionRestriction__"
+for _vec in (True, False):
+    schema(f"{FR}#{kind(_vec)}", {Q_ + "frozen_indexes": I1, Q_ + "frozen_values": F1, Q_ + "input_dim": TInt, "_active_indexes": I1,
+                                  Q_ + "mdo_function": TObj(MDOF, schema_key=f"{MDOF}#wrapped-{kind(_vec)}")})
+
+
+class _Restriction(Contract):
+    """r(y) = f(P(y)), P(y)[a_k] = y_k on the active inputs and P(y)[F_k] = v_k on the frozen ones; Dr(y) = the active columns of Df(P(y))."""
+
+    prop = ("C10",)
+    numpy = "precise"
+    frame_arrays = True
+    track_funv_arrays = True
+    params = {"x_subvect": F1}
+    modifies = ()
+    vec = True
+
+    def parts(self, c):
+        s = c.old.self
+        return c.old.x_subvect, getattr(s, Q_ + "frozen_indexes"), getattr(s, Q_ + "frozen_values"), s._active_indexes, getattr(s, Q_ + "input_dim")
+
+    def requires(self, c):
+        y, fr, v, act, n = self.parts(c)
+        a, b, j = z3.Int("a!rs"), z3.Int("b!rs"), z3.Int("j!rs")
+        p = z3.Const("p!rs", F1.sort())
+        f, df = z3fun("f", self.vec)
+        inr = lambda idx: z3.ForAll([a], z3.Implies(z3.And(0 <= a, a < ln(idx)), z3.And(0 <= el(idx, a), el(idx, a) < n)))  # noqa: E731
+        dis = lambda idx: z3.ForAll([a, b], z3.Implies(z3.And(0 <= a, a < b, b < ln(idx)), el(idx, a) != el(idx, b)))  # noqa: E731
+        conv = z3.And(F2.dim(df(p), 0) >= 1, F2.dim(df(p), 1) == n) if self.vec else F1.dim(df(p)) == n
+        # __init__: same shape for the frozen indexes and values; _active_indexes = the indexes of range(input_dim) that are not frozen
+        return [("one-value-per-frozen-input", ln(v) == ln(fr)), ("one-value-per-active-input", ln(y) == ln(act)), ("input-dimension", n >= 0),
+                ("frozen-indexes-in-range", inr(fr)), ("frozen-indexes-distinct", dis(fr)), ("active-indexes-in-range", inr(act)), ("active-indexes-distinct", dis(act)),
+                ("active-and-frozen-inputs-are-disjoint", z3.ForAll([a, b], z3.Implies(z3.And(0 <= a, a < ln(act), 0 <= b, b < ln(fr)), el(act, a) != el(fr, b)))),
+                ("f-conventions", z3.ForAll([p], z3.Implies(F1.dim(p) == n, conv), patterns=[df(p)]))]
+
+    def extended_point(self, c, fname):
+        y, fr, v, act, n = self.parts(c)
+        cs = calls(c, fname)
+        if len(cs) != 1:
+            return None, [(f"{fname[4:]}-is-evaluated-exactly-once", z3.BoolVal(False))]
+        (arg,), res = cs[0]
+        k = z3.Int("k!ep")
+        P = F1.els(arg)
+        return res, [(f"{fname[4:]}-point:dimension", F1.dim(arg) == n),
+                     (f"{fname[4:]}-point:active-inputs", z3.ForAll([k], z3.Implies(z3.And(0 <= k, k < ln(act)), P[el(act, k)] == el(y, k)))),
+                     (f"{fname[4:]}-point:frozen-inputs", z3.ForAll([k], z3.Implies(z3.And(0 <= k, k < ln(fr)), P[el(fr, k)] == el(v, k))))]
+
+
+for _vec in (True, False):
+    class RestrictionValue(_Restriction):
+        __doc__ = _Restriction.__doc__
+        targets = (FR + "._func_to_wrap",)
+        variant = f"{'vector' if _vec else 'number'}-valued-f"
+        vec = _vec
+        self_schema = f"{FR}#{kind(_vec)}"
+        returns = F1 if _vec else TReal
+
+        def ensures(self, c):
+            fx, out = self.extended_point(c, "c10_f")
+            if fx is None:
+                return out
+            i = z3.Int("i!rv")
+            if self.vec:
+                r = c.result
+                out += [("value", z3.And(ln(r) == F1.dim(fx), z3.ForAll([i], z3.Implies(z3.And(0 <= i, i < ln(r)), el(r, i) == F1.els(fx)[i]))))]
+            else:
+                out += [("value", c.result == fx)]
+            return out + _unchanged(c)
+
+    register(RestrictionValue)
+
+    class RestrictionJacobian(_Restriction):
+        __doc__ = _Restriction.__doc__
+        targets = (FR + "._jac_to_wrap",)
+        variant = f"{'vector' if _vec else 'number'}-valued-f"
+        vec = _vec
+        self_schema = f"{FR}#{kind(_vec)}"
+        returns = F2 if _vec else F1
+
+        def ensures(self, c):
+            y, fr, v, act, n = self.parts(c)
+            dfx, out = self.extended_point(c, "c10_Df")
+            if dfx is None:
+                return out
+            r = c.result
+            i, k = z3.Int("i!rj"), z3.Int("k!rj")
+            if self.vec:
+                m = F2.dim(dfx, 0)
+                out += [("shape", z3.And(ln(r, 0) == m, ln(r, 1) == ln(act))),
+                        ("active-columns", z3.ForAll([i, k], z3.Implies(z3.And(0 <= i, i < m, 0 <= k, k < ln(act)), el(r, i, k) == z3.Select(F2.els(dfx), i, el(act, k)))))]
+            else:
+                out += [("size", ln(r) == ln(act)), ("active-components", z3.ForAll([k], z3.Implies(z3.And(0 <= k, k < ln(act)), el(r, k) == F1.els(dfx)[el(act, k)])))]
+            return out + _unchanged(c)
+
+    register(RestrictionJacobian)
